@@ -301,7 +301,7 @@ func TestVerifC10(t *testing.T) {
 					seg := strings.Split(d.key, "/")
 					c.AddContent(seg[0], seg[1], seg[2], []byte(d.text))
 				}
-				c.AddContent("License", "Lic", "l.txt", lic)
+				c.AddContent("License", "Lic", "l.txt", vCap(lic, vCostCap(thr, false)))
 			case "repetitive":
 				c = NewClassifier(thr)
 				c.AddContent("License", "R1", "a.txt", []byte(strings.Repeat("a b ", 60)))
@@ -339,10 +339,8 @@ func TestVerifC10(t *testing.T) {
 			// the hostile bytes as a corpus document, matched against themselves: capped,
 			// because self-matching a low-vocabulary text is quadratic in its length
 			fin := in[:vMin(len(in), 20000)]
-			flic := lic
-			if thr < 0.65 {
-				flic = lic[:vMin(len(lic), 2500)]
-			}
+			flic := vCap(lic, vCostCap(thr, false))
+			fin = vCap(fin, vCostCap(thr, false))
 			fresh := NewClassifier(thr)
 			fresh.AddContent("License", "Hostile", "h.txt", fin)
 			fresh.AddContent("License", "Lic", "l.txt", flic)
